@@ -183,6 +183,60 @@ def init_psd_shift_case():
   return fn
 
 
+def kkt_sampled_case():
+  """NOT solver-decided (the graphical-lasso solver is compiled / iterative numerics): optimality certificate of the returned matrix for
+  the documented program  min tr(S M) - logdet M + alpha * ||M||_1,off  with S = M0^-1 + balance * sum y_i v_i v_i^T computed independently:
+  (M^-1 - S)_ii = 0, (M^-1 - S)_ij = alpha * sign(M_ij) where M_ij != 0 and |(M^-1 - S)_ij| <= alpha where M_ij = 0, within solver tolerance"""
+  def fn(ctx):
+    from metric_learn import SDML
+    rs = np.random.RandomState(11)
+    done = 0
+    for trial in range(60):
+      d = int(rs.choice([2, 3, 4]))
+      n = 30
+      X = rs.randn(n, d) @ np.diag(rs.uniform(.5, 2, d))
+      idx = np.array([rs.choice(n, 2, replace=False) for _ in range(20)])
+      P = X[idx]
+      y = np.where(rs.rand(20) < .5, 1, -1)
+      y[0], y[1] = 1, -1
+      pk = ['identity', 'covariance', 'array'][trial % 3]
+      if pk == 'array':
+        A = rs.randn(d, d)
+        prior = A @ A.T + np.eye(d)
+        M0inv = np.linalg.inv(prior)
+      elif pk == 'covariance':
+        prior = 'covariance'
+        M0inv = np.atleast_2d(np.cov(np.unique(np.vstack(P), axis=0), rowvar=False))
+      else:
+        prior, M0inv = 'identity', np.eye(d)
+      bal = float(rs.choice([1e-3, 1e-2, 0.05]))
+      alpha = float(rs.choice([0.01, 0.1, 0.5]))
+      V = P[:, 0] - P[:, 1]
+      S = M0inv + bal * (V.T * y) @ V
+      if np.linalg.eigvalsh(S).min() <= 1e-6:
+        continue              # outside the optimality clause (solver input not positive definite)
+      with warnings.catch_warnings():
+        warnings.simplefilter('ignore')
+        try:
+          est = SDML(prior=prior, balance_param=bal, sparsity_param=alpha).fit(P, y)
+        except RuntimeError:
+          continue            # the failure clause (ill-conditioned for the solver)
+      M = est.get_mahalanobis_matrix()
+      R = np.linalg.inv(M) - S
+      tol = 2e-2 * max(1.0, np.abs(S).max())
+      off = ~np.eye(d, dtype=bool)
+      nz = off & (np.abs(M) > 1e-10)
+      ctx.require('kkt_diagonal_stationarity', ctx.cond(np.abs(np.diag(R)).max() <= tol), detail='trial %d prior %s alpha %g' % (trial, pk, alpha))
+      ctx.require('kkt_offdiagonal_stationarity_on_the_support',
+                  ctx.cond((not nz.any()) or np.abs(R[nz] - alpha * np.sign(M[nz])).max() <= tol), detail='trial %d' % trial)
+      z = off & ~nz
+      ctx.require('kkt_subgradient_bound_off_the_support', ctx.cond((not z.any()) or np.abs(R[z]).max() <= alpha + tol), detail='trial %d' % trial)
+      ctx.require('result_symmetric_positive_definite', ctx.cond(np.allclose(M, M.T) and np.linalg.eigvalsh(M).min() > 0))
+      done += 1
+    ctx.require('enough_samples_reached_the_solver', ctx.cond(done >= 15))
+  return fn
+
+
 def cases(tier, seed):
   Q, T = ('quick', 'thorough'), ('thorough',)
   out = []
@@ -192,6 +246,9 @@ def cases(tier, seed):
                     % (npairs, pk), tiers=tiers, cost=5 * npairs, validate=6))
   out.append(case('result_vetting', vetting_case(), FUNCS,
                   'solver result: arbitrary symmetric 2x2 matrix / exception / NaN entry / inf entry (eigh by contract)', cost=10, validate=12))
+  out.append(case('kkt_certificate_sampled', kkt_sampled_case(), FUNCS,
+                  '60 random problems (d in 2..4, three prior kinds, balance in {1e-3,1e-2,.05}, sparsity in {.01,.1,.5}): KKT certificate of the returned matrix '
+                  '(concrete, sampled; not solver-decided)', concrete_only=True, validate=1, cost=5))
   out.append(case('few_features', few_features_case(), FUNCS, '1-3 arbitrary pairs with a single feature', cost=1))
   out.append(case('psd_shift_warning', init_psd_shift_case(), FUNCS, 'arbitrary symmetric 2x2 solver input', cost=10, validate=6))
   return out
